@@ -325,3 +325,146 @@ def model_case(case: dict, skip: bool = True) -> dict:
         "keys": KEYS,
         "ops": ops,
     }
+
+
+# ---------------------------------------------------------------------------------------------------------------------
+# watchdog: implementation cases run in a child interpreter, one after the other; a case that does not answer within the
+# (generous) time limit is reported as a hang, the child and everything it started is killed, and the remaining cases go
+# to a fresh child.  Shared by C11, C19 and C36 (a broken cache / audit protocol can make a submission spin forever).
+
+
+def _child_main(target: str, fd: int):
+    import importlib
+    import json
+    import sys
+    import traceback
+
+    from harness import core
+
+    core.assert_repo_loaded()
+    mod, _, fn = target.partition(":")
+    f = getattr(importlib.import_module(mod), fn)
+    out = os.fdopen(fd, "w")
+    for line in sys.stdin:
+        if not line.strip():
+            continue
+        req = json.loads(line)
+        try:
+            ans = {"ok": f(req["case"], Path(req["sandbox"]))}
+        except BaseException as e:  # the harness function itself failed: report, do not guess
+            ans = {"harness_error": f"{type(e).__name__}: {e}", "trace": traceback.format_exc()[-2000:]}
+        out.write(json.dumps(ans, default=repr) + "\n")
+        out.flush()
+
+
+class ChildRunner:
+    """run `target(case, sandbox)` for each case in a watchdog child; results in order:
+    {"ok": value} | {"hang": seconds} | {"crash": returncode} | {"harness_error": …}"""
+
+    def __init__(self, target: str, scratch: Path, timeout: float = 900.0):
+        self.target, self.scratch, self.timeout = target, Path(scratch), timeout
+        self.proc = None
+
+    def _start(self):
+        import subprocess
+
+        from harness import core
+
+        r, w = os.pipe()
+        private_hash_cache(self.scratch)
+        self.proc = subprocess.Popen(
+            [core.PY, "-m", "harness.engines.cachehist", self.target, str(w)],
+            stdin=subprocess.PIPE,
+            stdout=subprocess.DEVNULL,
+            stderr=subprocess.DEVNULL,
+            pass_fds=[w],
+            env=core.impl_env({"PYDRA_HASH_CACHE": os.environ["PYDRA_HASH_CACHE"]}),
+            start_new_session=True,
+            text=True,
+            cwd=str(self.scratch),
+        )
+        os.close(w)
+        self.rfd = r
+        self.buf = b""
+
+    def _kill(self):
+        import signal
+
+        if self.proc is not None:
+            try:
+                os.killpg(self.proc.pid, signal.SIGKILL)
+            except ProcessLookupError:
+                pass
+            self.proc.wait()
+            os.close(self.rfd)
+            self.proc = None
+
+    def _read_line(self):
+        import select
+        import time
+
+        deadline = time.time() + self.timeout
+        while b"\n" not in self.buf:
+            left = deadline - time.time()
+            if left <= 0:
+                return None
+            ready, _, _ = select.select([self.rfd], [], [], left)
+            if not ready:
+                return None
+            chunk = os.read(self.rfd, 1 << 16)
+            if not chunk:
+                return b""  # child is gone
+            self.buf += chunk
+        line, _, self.buf = self.buf.partition(b"\n")
+        return line
+
+    def run(self, cases: list, tag: str = "case") -> list:
+        import json
+
+        out = []
+        for i, c in enumerate(cases):
+            if self.proc is None:
+                self._start()
+            sb = self.scratch / f"{tag}-{i}-{os.getpid()}-{len(out)}"
+            if sb.exists():
+                shutil.rmtree(sb)
+            sb.mkdir(parents=True)
+            try:
+                self.proc.stdin.write(json.dumps({"case": c, "sandbox": str(sb)}) + "\n")
+                self.proc.stdin.flush()
+                line = self._read_line()
+            except BrokenPipeError:
+                line = b""
+            if line is None:
+                out.append({"hang": self.timeout})
+                self._kill()
+            elif line == b"":
+                rc = self.proc.poll()
+                out.append({"crash": rc})
+                self._kill()
+            else:
+                out.append(json.loads(line))
+            shutil.rmtree(sb, ignore_errors=True)
+        self.close()
+        return out
+
+    def close(self):
+        if self.proc is not None:
+            try:
+                self.proc.stdin.close()
+                self.proc.wait(timeout=60)
+                os.close(self.rfd)
+                self.proc = None
+            except Exception:
+                self._kill()
+
+
+def child_history(case: dict, sandbox: Path):
+    tr, untouched = run_history(sandbox / "h", case)
+    return {"trace": tr, "untouched": untouched}
+
+
+if __name__ == "__main__":
+    import sys
+
+    _child_main(sys.argv[1], int(sys.argv[2]))
